@@ -766,6 +766,9 @@ class Body:
         if not defs:
             return {(("local", l), ())}
         out = set()
+        if 1 <= l <= self.arg_count:
+            # a parameter that is also reassigned: its incoming value is one of its values
+            out.add((("arg", l), ()))
         for d in defs:
             if d[0] == "assign":
                 _, bb, idx, st = d
